@@ -126,3 +126,5 @@ def campaign(ctx):
         elif s in ("other", "hang"):
             ctx.label("other_exception")
     ctx.run_given(case_strategy(ctx.thorough), body, max_examples=ctx.n(1500, 20000))
+    from .c04 import fuzz_tier
+    fuzz_tier(ctx, run_case, pid="C01")
